@@ -31,17 +31,28 @@ def _mol_run(run, model, opts, nrel_quick, nrel_thorough, exhaustive=None, compl
         try:
             facts = mol_checks.check_one(run, model, am, opts_here, nrel_here, rng, groups)
         except CaseTimeout:
-            # no result at all for a molecule of the property's domain: the property cannot hold on it
-            run.falsifier_hits.append({"property": run.prop, "what": "implementation did not return within %d s (no result to compare)" % limit,
-                                       "key": "timeout", "molecule": am.to_json(), "extra": None})
             try:
                 model.p.kill()
             except Exception:
                 pass
             model.__init__()      # the line protocol may be out of step after an interrupted call
+            # a loaded machine is not a violation: the molecule is given three times the limit once more, on the
+            # implementation alone, before "no result" is reported
+            signal.alarm(3 * limit)
+            try:
+                mol_checks.check_one(run, model, am, (opts_here - {"K4", "K5", "K6", "K7"}), min(nrel_here, 1), rng, groups)
+                run.notes.append("a molecule needed more than %d s (passed on the second attempt with %d s): %s n=%d" % (limit, 3 * limit, am.family, am.n()))
+                return {}
+            except CaseTimeout:
+                pass
+            finally:
+                signal.alarm(0)
+            # no result at all for a molecule of the property's domain: the property cannot hold on it
+            run.falsifier_hits.append({"property": run.prop, "what": "implementation did not return within %d s (no result to compare)" % (3 * limit),
+                                       "key": "timeout", "molecule": am.to_json(), "extra": None})
             run.timeouts = getattr(run, "timeouts", 0) + 1
-            if run.timeouts >= 3:
-                raise RuntimeError("3 molecules exceeded the per-case time limit; stopping the stream")
+            # one confirmed "no result" is a violation with its replay; the rest of the stream would mostly wait for the same loop
+            raise RuntimeError("a molecule exceeded the per-case time limit twice (%d s, then %d s); stopping the stream" % (limit, 3 * limit))
             return {}
         finally:
             signal.alarm(0)
